@@ -56,7 +56,10 @@ def _case(draw, tier):
             "prior_eval": draw(st.sampled_from([False, False, True])),
             # the solve is done in two legs, the second continued from the state and extra solver state the first returned
             # (extra=True / extra_solver_state): the derivative of the whole is still that of the numerical solution
-            "two_legs": draw(st.sampled_from([False, False, True]))}
+            "two_legs": draw(st.sampled_from([False, False, True])),
+            # the SDE module is in eval() mode (a model being fine-tuned with frozen normalisation layers, or simply left in
+            # eval mode): what the solution's derivative is does not depend on that flag
+            "eval_mode": draw(st.sampled_from([False, False, True]))}
 
 
 def strategy(tier):
@@ -83,7 +86,26 @@ def enumerate_cases(tier):
                    "frozen": [None, "drift", "diffusion"][(idx + (0 if y0_grad else 1)) % 3],
                    "g_zero_at_y0": combo["noise_type"] != "additive" and idx % 2 == 0 and y0_grad,
                    "logqp": idx % 3 == 1 and y0_grad, "external": "only_external" if (idx % 4 == 2 and not y0_grad) else None,
-                   "prior_eval": idx % 2 == 1, "two_legs": combo["method"] == "reversible_heun" or idx % 5 == 0}
+                   "prior_eval": idx % 2 == 1, "two_legs": combo["method"] == "reversible_heun" or idx % 5 == 0,
+                   "eval_mode": idx % 3 == 0}
+    yield from _adaptive_cells()
+
+
+def _adaptive_cells():
+    """Every accepted cell once more with adaptive steps whose tolerances are so tight against dt_min (= dt / 2) that most
+    steps are accepted only because the controller has reached dt_min (the documented forced acceptance)."""
+    import os
+    import random
+    seed = int(os.environ.get("VERIF_SEED", "1") or 1)
+    for idx, combo in enumerate(sdes.accepted_combos(include_grad_free=True, all_levy=False)):
+        rnd = random.Random(seed * 2011 + idx)
+        nt = combo["noise_type"]
+        spec = {"sde_type": combo["sde_type"], "noise_type": nt, "d": 2, "m": 1 if nt == "scalar" else 2, "batch": 2,
+                "hidden": 3, "seed": rnd.randrange(2 ** 31), "tdep": True, "fscale": 1.0, "gscale": 0.7, "dtype": "float64"}
+        yield {"spec": spec, "combo": combo, "time": {"t0": 0.0, "t1": 0.5, "dt": 0.125, "tdtype": "float64"},
+               "adaptive": True, "outs": [0.5], "entropy": rnd.randrange(2 ** 31 - 2), "wseed": rnd.randrange(2 ** 31),
+               "tol": 1e-5, "dtmin_div": 2, "y0_grad": True, "frozen": None, "g_zero_at_y0": False, "logqp": False,
+               "external": None, "prior_eval": False, "two_legs": False, "eval_mode": idx % 2 == 0}
 
 
 class _IllConditioned(Exception):
@@ -119,7 +141,7 @@ def run_case(case):
     w = None
     kw = {}
     if case["adaptive"]:
-        kw = dict(adaptive=True, rtol=case["tol"], atol=case["tol"], dt_min=tm["dt"] / 16)
+        kw = dict(adaptive=True, rtol=case["tol"], atol=case["tol"], dt_min=tm["dt"] / case.get("dtmin_div", 16))
     sig = {"method": combo["method"], "noise_type": spec["noise_type"], "sde_type": spec["sde_type"],
            "adaptive": case["adaptive"], "grad_free": bool(combo["options"])}
 
@@ -186,6 +208,8 @@ def run_case(case):
         if ext:
             ctx_t = (torch.tensor([0.4, -0.6], dtype=torch.float64) + shift * dir_c).requires_grad_(need_grad)
             sde = _Ext(sde, ctx_t)
+        if case.get("eval_mode"):
+            sde.eval()
         bm = sdes.make_bm(torchsde, spec, ts[0], ts[-1], case["entropy"], levy=combo["levy"])
         real = adaptive_stepping.compute_error
 
@@ -266,7 +290,7 @@ def run_case(case):
               "y0_requires_grad" if y0_grad else "y0_fixed"] + ([f"frozen={frozen_kind}"] if frozen_kind else []) + \
         (["g_vanishes_at_y0"] if gz else []) + (["logqp"] if logqp else []) + ([f"external_context:{ext}"] if ext else []) + \
         (["same_sde_first_solved_under_no_grad"] if case.get("prior_eval") else []) + \
-        (["continued_from_returned_extra_state"] if two_legs else [])
+        (["continued_from_returned_extra_state"] if two_legs else []) + (["sde_in_eval_mode"] if case.get("eval_mode") else [])
     if case["adaptive"]:
         labels.append(f"trials={'>=10' if len(record) >= 10 else '<10'}")
     fail = None
